@@ -24,6 +24,8 @@ func TestCheck(t *testing.T) {
 	scs = append(scs,
 		gx.Sc{Name: "om?np=1&auto=1&ops=2&gates=om.flush.sent&faults=" + omFaults, Q: 3, T: 4},
 		gx.Sc{Name: "om?np=2&auto=0&ops=1&gates=om.flush.sent&faults=" + omFaults, Q: 2, T: 3},
+		// two partitions, auto-commit: Close releases a clean partition manager while the dirty sibling's final flush can still fail
+		gx.Sc{Name: "om?np=2&auto=1&ops=1&gates=om.flush.sent&faults=drop,unknown,notcoord", Q: 3, T: 4},
 		// unbuffered Errors() channels and a slow (but servicing) reader; Close may arrive while a manual Commit is reporting a failure
 		gx.Sc{Name: "om?np=1&auto=0&ops=2&errbuf=0&slowerr=1&gates=om.flush.sent&faults=drop,unknown,toolarge", Q: 3, T: 4},
 		gx.Sc{Name: "om?np=1&auto=1&ops=1&errbuf=0&slowerr=1&gates=om.flush.sent&faults=drop,unknown", Q: 3, T: 4},
